@@ -240,6 +240,19 @@ CHECKS: dict[str, dict] = {
 PENDING: dict[str, str] = {}
 
 
+# additions of round 7 (DESIGN.md 8.4): what the deciding method gained, appended to the technique text
+ROUND7 = {
+    "C03": "; base64 encoder step machine over boundary payload sizes (MC_GfxB64) replayed into the real encoder",
+    "C07": "; KittyCut.tla (payload class x cut point of an interrupted chunked transmission) realised against the real draw()",
+    "C09": "; DrawCache.tla (cache decision of draw() and renders per frame) with TLC validation of recorded interrupted draws",
+    "C14": "; thread creation and elapsing time as model actions, real-thread newcomer traces",
+    "C15": "; fault actions (exception / Ctrl-C out of a cache-miss look-up) replayed on a pty by signal",
+    "C16": "; identity tokens of held namespaces (HeldIsGiven) and unhashable field values",
+    "C17": "; absent alignments (documented defaults) in the canvas model",
+    "C18": "; canvas lifetime (ReleaseCanvas / TracksLastCanvas) with canvases the harness does not keep alive",
+}
+
+
 def build() -> dict:
     props = [json.loads(line) for line in (VERIF / "properties.jsonl").read_text().splitlines() if line.strip()]
     checks = []
@@ -273,7 +286,7 @@ def build() -> dict:
                     "design_ref": c.get("design_ref", "DESIGN.md 3"),
                 },
                 "level_note": c.get("level_note", LEVEL_NOTE),
-                "technique": c["technique"],
+                "technique": c["technique"] + ROUND7.get(pid, ""),
             }
         )
     return {
